@@ -528,6 +528,12 @@ class Driver:
                     Persistence(self.gw.sensors, lambda f: f, persistence_file=path).save_sensors()
                     g = my.BaseSyncGateway(RecTransport(), persistence=True, persistence_file=path,
                                            protocol_version=self.version)
+                    if len(self.ops) % 2:
+                        # the loading gateway already knows some of the nodes (bare, flagged for reboot): a load restores the
+                        # saved node all the same
+                        for nid in list(self.gw.sensors)[::2]:
+                            g.add_sensor(nid)
+                            g.sensors[nid].reboot = True
                     g.start_persistence()
                     keep, self.gw = self.gw, g
                     try:
